@@ -126,6 +126,26 @@ def to_np(gj):
     return np.array([[complex(float(_fr(z[0])), float(_fr(z[1]))) for z in row] for row in gj])
 
 
+LAYOUTS = ("C", "F", "T", "H", "strided")
+
+
+def relayout(a, layout):
+    """the same matrix in a different memory layout (values identical): C-contiguous, Fortran-contiguous copy, transposed view of a
+    C-contiguous copy (F-contiguous view), conjugate-transpose view chain as produced by `u.conj().T`, non-contiguous strided view"""
+    a = np.asarray(a)
+    if layout in (None, "C") or a.ndim != 2 or a.size == 0:
+        return a
+    if layout == "F":
+        return np.asfortranarray(a)
+    if layout == "T":
+        return np.ascontiguousarray(a.T).T
+    if layout == "H":
+        return np.ascontiguousarray(a.conj().T).conj().T
+    big = np.zeros((2 * a.shape[0], 2 * a.shape[1]), dtype=a.dtype)
+    big[::2, ::2] = a
+    return big[::2, ::2]
+
+
 def build_fields(case):
     """-> (list of Field objects in the order of case['fields'], dict id -> Field)"""
     qib = _ctx["qib"]
@@ -151,7 +171,7 @@ def build_gate(case, objs):
     ps = [mk_particle(objs, fid, idx) for fid, idx in case["particles"]]
     k = gd["kind"]
     if k == "general":
-        g = qib.GeneralGate(to_np(gd["mat"]), gd["m"])
+        g = qib.GeneralGate(relayout(to_np(gd["mat"]), gd.get("layout")), gd["m"])
         if ps:
             g.on(ps)
         return g
@@ -186,20 +206,25 @@ def impl(case):
     try:
         if op == "embed":
             g = np.array([[complex(a, b) for a, b in row] for row in case["g"]]) if case["g"] else np.zeros((0, 0))
-            sp = _ctx["dist"](case["n"], list(case["iw"]), _ctx["csr"](g))
+            sp = _ctx["dist"](case["n"], list(case["iw"]), _ctx["csr"](relayout(g, case.get("layout"))))
             return {"coo": coo_canon(sp), "shape": list(sp.shape)}
         if op == "gate.circuit_matrix":
             fields, objs = build_fields(case)
             gate = build_gate(case, objs)
             gm = np.asarray(gate.as_matrix())
             extra = {"_g": dense_json(gm), "_particles": [[_fid_of(objs, p.field), int(p.index)] for p in gate.particles()]}
+            for pre in case.get("pre_orders", []):      # the same gate object was embedded into other registers before
+                try:
+                    gate.as_circuit_matrix([objs[fid] for fid in pre])
+                except Exception:
+                    pass
             try:
                 sp = gate.as_circuit_matrix(fields)
             except Exception as e:
                 return {"raised": kind_of(e), "msg": f"{type(e).__name__}: {e}"[:160], **extra}
             return {"coo": coo_canon(sp), "shape": list(sp.shape), **extra}
         if op == "permute":
-            u = np.array([[complex(a, b) for a, b in row] for row in case["u"]])
+            u = relayout(np.array([[complex(a, b) for a, b in row] for row in case["u"]]), case.get("layout"))
             r = _ctx["qib"].util.permute_gate_wires(u, case["perm"])
             return {"mat": dense_json(r)}
         if op == "wire":
@@ -409,7 +434,7 @@ def gen_embed(tier, rng):
         for m in range(0, min(n, M) + 1):
             for iw in itertools.permutations(range(n), m):
                 yield {"op": "embed", "n": n, "iw": list(iw), "g": rand_gauss(rng, 2 ** m)}
-                yield {"op": "embed", "n": n, "iw": list(iw), "g": rand_gauss(rng, 2 ** m, sparse=True)}
+                yield {"op": "embed", "n": n, "iw": list(iw), "g": rand_gauss(rng, 2 ** m, sparse=True), "layout": rng.choice(LAYOUTS)}
     # n = 0: the empty register
     yield {"op": "embed", "n": 0, "iw": [], "g": [[[3, -1]]]}
     # malformed stream
@@ -500,9 +525,19 @@ def gen_public(tier, rng):
         for _ in range(7 if thorough else 6):
             gd, m = rand_gate_desc(rng, min(len(allp), 4))
             gates.append((gd, rng.sample(allp, m)))
-        for order in itertools.permutations(ids):
+        orders = list(itertools.permutations(ids))
+        for order in orders:
             for gd, ps in gates:
-                yield {"op": "gate.circuit_matrix", "field_defs": defs, "order": list(order), "gate": gd, "particles": [list(p) for p in ps]}
+                c = {"op": "gate.circuit_matrix", "field_defs": defs, "order": list(order), "gate": gd, "particles": [list(p) for p in ps]}
+                if rng.random() < 0.35:
+                    # the same gate object is first embedded into other registers (other field orders / sub-lists / a field listed twice)
+                    pre = [list(rng.choice(orders)) for _ in range(rng.randint(1, 2))]
+                    if rng.random() < 0.3 and len(ids) >= 2:
+                        pre.append(list(order)[:-1])
+                    c["pre_orders"] = pre
+                if gd["kind"] == "general" and rng.random() < 0.5:
+                    c["gate"] = dict(gd, layout=rng.choice(LAYOUTS))
+                yield c
         # ---- malformed stream on this layout
         order = list(ids)
         gd2 = {"kind": "iswap"}
@@ -542,8 +577,8 @@ def gen_permute(tier, rng):
     NW = 4 if tier == "thorough" else 3
     for nw in range(0, NW + 1):
         for perm in itertools.permutations(range(nw)):
-            for _ in range(2):
-                yield {"op": "permute", "perm": list(perm), "u": rand_gauss(rng, 2 ** nw)}
+            for lay in (LAYOUTS if nw >= 1 else ("C",)):
+                yield {"op": "permute", "perm": list(perm), "u": rand_gauss(rng, 2 ** nw), "layout": lay}
     for nw in range(1, 4):
         for _ in range(6):
             perm = [rng.randrange(nw + 1) for _ in range(nw)]
